@@ -27,9 +27,9 @@ M_ResultIgnoresExc(j) ==
 
 \* cancel() returns although the process is running                  -> QuiescentUnlessCbp
 M_CancelSkips(j) ==
-    /\ cpc[<<"h", j>>] = "poll"
-    /\ cpc' = [cpc EXCEPT ![<<"h", j>>] = "done"]
-    /\ act' = L("can", j, "M_CancelSkips")
+    /\ cpc[<<"s1", j>>] = "poll"
+    /\ cpc' = [cpc EXCEPT ![<<"s1", j>>] = "done"]
+    /\ act' = L("can", <<"s1", j>>, "M_CancelSkips")
     /\ UNCHANGED <<Rest, spc, wpc, delivered, seen>>
 
 \* the worker finishes without set_result                            -> WaitReturns / ResultEventually
@@ -46,19 +46,32 @@ M_NoCheck(j) ==
     /\ act' = L("sub", j, "M_NoCheck")
     /\ UNCHANGED <<Rest, wpc, delivered, seen, cpc>>
 
+\* "idempotent shutdown": shutdown() returns at once when the flag is already set  -> QuiescentUnlessCbp,
+\* ShutdownReturnsUnlessCbp (a shutdown(wait=False) arriving while a shutdown(wait=True) joins cancels nothing)
+M_EarlyReturn(s) ==
+    /\ hpc[s] = "idle" /\ mode[s] # "none" /\ flag
+    /\ hpc' = [hpc EXCEPT ![s] = "returned"]
+    /\ act' = L("shut", s, "M_EarlyReturn")
+    /\ UNCHANGED <<mode, flag, lock, futures, proc, exc, snap, hidx, late, postret, early, sclosed, spc, wpc, delivered, seen, cpc>>
+
 MutStep ==
-    \E j \in Jobs :
+    \/ Mutation = "early_return" /\ \E s \in Shuts : M_EarlyReturn(s)
+    \/ \E j \in Jobs :
         \/ Mutation = "set_result_twice" /\ M_SetResultTwice(j)
         \/ Mutation = "result_ignores_exc" /\ M_ResultIgnoresExc(j)
         \/ Mutation = "cancel_skips" /\ M_CancelSkips(j)
         \/ Mutation = "lost_result" /\ M_LostResult(j)
         \/ Mutation = "no_check" /\ M_NoCheck(j)
 
-NextMut == Next \/ MutStep
+\* with the early return the regular H_SetFlag is only taken when the flag is not yet set
+NextMut ==
+    \/ (Next /\ (Mutation = "early_return" => \A s \in Shuts : (hpc[s] = "idle" /\ hpc'[s] # "idle") => ~flag))
+    \/ MutStep
 SpecMut == Init /\ [][NextMut]_vars
 FairSpecMut ==
     /\ SpecMut
-    /\ \A j \in Jobs : WF_vars(SubNext(j)) /\ WF_vars(WrkNext(j) \/ M_LostResult(j)) /\ WF_vars(CanNext(j))
-    /\ \A j \in Jobs \ HasTimeout : WF_vars(Env_Exit(j))
-    /\ WF_vars(ShutNext)
+    /\ \A j \in Jobs : WF_vars(SubNext(j)) /\ WF_vars(WrkNext(j) \/ M_LostResult(j))
+    /\ \A s \in Shuts, j \in Jobs : WF_vars(CanNext(s, j))
+    /\ \A j \in Jobs \ (HasTimeout \cup NeverExits) : WF_vars(Env_Exit(j))
+    /\ \A s \in Shuts : WF_vars(ShutNext(s) \/ M_EarlyReturn(s))
 =============================================================================
